@@ -10,6 +10,7 @@ import PPProofs.Props.C11FromDict
 #print axioms PP.PR.concat_empty_left
 #print axioms PP.PR.sum_is_fold
 #print axioms PP.PR.concat_assoc_former_witness
+#print axioms PP.PR.from_dict_item_step
 #print axioms PP.PRHeap.frame_step
 #print axioms PP.PRHeap.frame_all
 #print axioms PP.PRHeap.copy_frame
